@@ -27,6 +27,7 @@ ASSUMPTIONS = ["virtual_sitesn is generated with function 1 (centre of geometry)
                "that COM/COW are approximated by COG",
                "Weisfeiler-Lehman hash collisions between non-isomorphic residues with equal atom-name multisets "
                "are not generated on purpose and would be reported as 'shared_template' (none seen)"]
+RULE += (' Bonds are of function type 1, 2 or 6 (reference length first); one-bead residues may carry a site constructed from that bead alone.')
 BUDGET = {"quick": (16, 50), "thorough": (16, 800)}
 
 TYPES = ["TA", "TB", "TC"]
